@@ -481,6 +481,11 @@ impl PG<'_> {
             0 => rand_tree(self.r, 5, 6, 20),
             1 => int_atom(self.r.range(-300, 300)),
             2 => int_atom(self.r.range(0, 40)),
+            3 => {
+                let bits = self.r.below(40) as u32;
+                let v: i64 = if bits == 0 { 0 } else { ((1u64 << (bits - 1)) | (self.r.next() & ((1u64 << (bits - 1)) - 1))) as i64 };
+                int_atom(if self.r.chance(1, 6) { -v } else { v })
+            }
             _ => atom_json(&rand_atom_bytes(self.r, 10)),
         }
     }
@@ -578,7 +583,13 @@ impl PG<'_> {
     fn fast_expr(&mut self, depth: u32) -> Value {
         let big = |r: &mut Rng| -> Value {
             // 26-bit values (inline) near the top, so sums overflow u64/i64 only with many terms; plus 8-byte edge values
-            match r.below(6) {
+            match r.below(9) {
+                6..=8 => {
+                    // bit length uniform in 0..=26: every limb boundary of small operands
+                    let bits = r.below(27) as u32;
+                    let v: i64 = if bits == 0 { 0 } else { ((1u64 << (bits - 1)) | (r.next() & ((1u64 << (bits - 1)) - 1))) as i64 };
+                    int_atom(match r.below(4) { 0 if bits > 0 => (1i64 << bits) - 1, _ => v })
+                }
                 0 => int_atom(0x3ff_ffff - r.range(0, 2)),
                 1 => int_atom(r.range(0, 300)),
                 2 => atom_json(&[0x7f, 0xff, 0xff, 0xff, 0xff, 0xff, 0xff, 0xff - r.below(2) as u8]),
@@ -843,11 +854,107 @@ fn sexp(v: &str) -> Option<Value> {
 // (a (q 2 2 (c 2 (c 3 0))) (c (q 2 (i (l 5) (q 11 (q . 2) (a 2 (c 2 (c 9 0))) (a 2 (c 2 (c 13 0)))) (q 11 (q . 1) 5)) 1) 1))
 const CHIALISP_SHATREE: &str = "(a (q 2 2 (c 2 (c 3 0))) (c (q 2 (i (l 5) (q 11 (q . 2) (a 2 (c 2 (c 9 0))) (a 2 (c 2 (c 13 0)))) (q 11 (q . 1) 5)) 1) 1))";
 
+// ---------------------------------------------------------------------------
+// replay: cases emitted by the bounded model (spec/MCInterp.tla) run through the real run_program
+//   {"prog":T,"env":T,"flags":[names],"dialect":"chia|unaware|runtime","budget":[LE digits],
+//    "exp":{"st":"ok","cost":[LE],"val":T,"atoms":n,"pairs":n,"heap":n} | {"st":"err","kind":K}}
+// A mismatch line is {"case":<the case>,"obs":<what the implementation did>,"diff":[field names]};
+// the last line is {"done":N}.
+
+/// one case on a fresh allocator: the observed outcome in the same shape as `exp`
+fn replay_case(c: &Value) -> Value {
+    let prog = c["prog"].clone();
+    let env = c["env"].clone();
+    let bits = json_flags(&c["flags"]);
+    let dialect = c["dialect"].as_str().unwrap_or("chia").to_string();
+    let budget = le_n(&c["budget"]) as u64;
+    let r = catch(move || {
+        let mut a = Allocator::new();
+        let p = json_tree(&mut a, &prog).expect("program tree");
+        let e = json_tree(&mut a, &env).expect("environment tree");
+        let fl = flags(bits);
+        let result = match dialect.as_str() {
+            "chia" => {
+                let d = ChiaDialect::new(fl);
+                run_program(&mut a, &d, p, e, budget)
+            }
+            "unaware" => {
+                let d = Unaware { inner: ChiaDialect::new(fl) };
+                run_program(&mut a, &d, p, e, budget)
+            }
+            "runtime" => {
+                let d = runtime_dialect(bits);
+                run_program(&mut a, &d, p, e, budget)
+            }
+            other => panic!("unknown dialect {other}"),
+        };
+        match result {
+            Ok(Reduction(cost, node)) => json!({"st": "ok", "cost": n_le(cost as u128), "val": unflatten_tree(&tree_json(&a, node)),
+                "atoms": a.atom_count(), "pairs": a.pair_count(), "heap": a.heap_size()}),
+            Err(e) => json!({"st": "err", "kind": err_kind(&e), "msg": e.to_string()}),
+        }
+    });
+    match r {
+        Ok(v) => v,
+        Err(p) => json!({"st": "panic", "panic": p}),
+    }
+}
+
+/// names of the expected fields the observation contradicts (empty = agreement)
+fn replay_diff(exp: &Value, obs: &Value) -> Vec<&'static str> {
+    let mut d = vec![];
+    if exp["st"] != obs["st"] {
+        d.push("st");
+        return d;
+    }
+    if exp["st"] == "ok" {
+        if le_n(&exp["cost"]) != le_n(&obs["cost"]) {
+            d.push("cost");
+        }
+        if unflatten_tree(&exp["val"]) != unflatten_tree(&obs["val"]) {
+            d.push("val");
+        }
+        for k in ["atoms", "pairs", "heap"] {
+            if exp.get(k).is_some() && exp[k].as_u64() != obs[k].as_u64() {
+                d.push(k);
+            }
+        }
+    } else if exp["kind"] != obs["kind"] {
+        d.push("kind");
+    }
+    d
+}
+
+fn replay_main(args: &[String]) {
+    let mut out = Out::create(&arg(args, "--out").unwrap_or("-".into()));
+    let f = std::fs::File::open(arg(args, "--in").expect("--in")).expect("open cases");
+    let mut n = 0u64;
+    for line in std::io::BufRead::lines(std::io::BufReader::new(f)) {
+        let line = line.expect("read");
+        if line.trim().is_empty() {
+            continue;
+        }
+        let c: Value = serde_json::from_str(&line).expect("json line");
+        n += 1;
+        let obs = replay_case(&c);
+        let diff = replay_diff(&c["exp"], &obs);
+        if !diff.is_empty() {
+            out.emit(&json!({"case": c, "obs": obs, "diff": diff}));
+        }
+    }
+    out.emit(&json!({"done": n}));
+    out.flush();
+}
+
 fn main() {
     let args: Vec<String> = std::env::args().collect();
     let cmd = args.get(1).map(|s| s.as_str()).unwrap_or("");
+    if cmd == "replay" {
+        replay_main(&args);
+        return;
+    }
     if cmd != "record" {
-        eprintln!("usage: run record --profile P --seed S --n N --out F");
+        eprintln!("usage: run record --profile P --seed S --n N --out F | run replay --in cases.ndjson --out mism.ndjson");
         std::process::exit(2);
     }
     let mut out = Out::create(&arg(&args, "--out").unwrap_or("-".into()));
